@@ -9,11 +9,17 @@ use subjects::vt::VT;
 pub fn cuts(vt: &VT, shape: &Shape, v: &Value) -> Result<usize, String> {
 	let Ok(enc) = ref_enc(shape, v) else { return Ok(0) };
 	let enc = if shape.order_free() { guarded(|| (vt.encode)(v)).map_err(|p| format!("encode panicked: {}", p))? } else { enc };
-	// long encodings: every cut near both ends and at the chunk-sized steps in between
+	// long encodings: every cut near both ends, and in between at the 1 KiB steps (at most 96 of them, evenly
+	// spread over the chunk boundaries, so that the work stays linear in the length)
 	let ks: Vec<usize> = if enc.len() <= 600 {
 		(0..enc.len()).collect()
 	} else {
-		(0..40).chain((1..enc.len() / 1024).map(|i| i * 1024)).chain(enc.len() - 40..enc.len()).collect()
+		let kib = enc.len() / 1024;
+		let stride = (kib / 96).max(1);
+		(0..40)
+			.chain((1..kib).filter(|i| i % stride == 0 || *i <= 17 || kib - i <= 17).map(|i| i * 1024))
+			.chain(enc.len() - 40..enc.len())
+			.collect()
 	};
 	for k in ks {
 		match guarded(|| (vt.decode)(&enc[..k])) {
@@ -93,6 +99,10 @@ pub fn concat(parts: &[(&VT, Value)]) -> Result<usize, String> {
 	// the same stream read value by value through IoReader over readers that hand out the bytes in pieces
 	// (a value straddling two pieces must not disturb its neighbours), and through an input of unknown length
 	for default in [subjects::inputs::ReadChoice::One, subjects::inputs::ReadChoice::Half] {
+		// one call per byte means 10^8 calls for the largest thorough-tier values: moderate buffers only
+		if default == subjects::inputs::ReadChoice::One && buf.len() > (1 << 18) {
+			continue;
+		}
 		let mut r = subjects::inputs::ChunkReader::trickle(&buf);
 		r.default = default;
 		for (i, (vt, v)) in parts.iter().enumerate() {
